@@ -36,6 +36,8 @@ Definition lib1 := ("upgrade_outer", L_upgrade_outer) :: lib0.
 Definition L_listener_go := inline_all lib1 (cl fn_listener_go listener_go).
 Definition L_gated_accept := cl fn_gated_accept gated_accept.
 Definition L_listener_accept := cl fn_listener_accept listener_accept.
+Definition L_listener_loop := cl fn_listener_loop listener_loop.
+Definition L_host_streamhandler := cl fn_host_streamhandler host_streamhandler.
 Definition L_tcp_dial_scope := inline_all lib1 (cl fn_tcp_dial_scope tcp_dial_scope).
 Definition lib2 := ("tcp_dial_scope", L_tcp_dial_scope) :: lib1.
 Definition L_tcp_dial := inline_all lib2 (cl fn_tcp_dial tcp_dial).
@@ -51,7 +53,8 @@ Definition L_host_newstream := cl fn_host_newstream host_newstream.
 
 Definition st_conn := mkSt Held Held Absent Absent 0 false None None [].   (* raw conn + scope given *)
 Definition st_raw := mkSt Held Absent Absent Absent 0 false None None [].    (* raw conn given, scope is the caller's *)
-Definition st_stream := mkSt Absent Absent Held Held 0 false None None [].  (* muxed stream + stream scope given *)
+Definition st_stream := mkSt Absent Absent Held Held 0 false None None [].
+Definition st_sstream := mkSt Absent Absent Held Absent 0 false None None []. (* a registered swarm stream (its scope goes with it) *)  (* muxed stream + stream scope given *)
 
 (* an entry = (name, value-returning?, initial resources, flattened paths) *)
 Definition entries : list (string * bool * st * list (list aev)) :=
@@ -64,7 +67,9 @@ Definition entries : list (string * bool * st * list (list aev)) :=
    ("Conn.start accept-loop iteration", false, st0, L_conn_start_accept);
    ("Conn.start stream goroutine", false, st_stream, L_conn_start_handle);
    ("BasicHost.NewStream", true, st0, L_host_newstream);
-   ("listener.Accept iteration", true, st0, L_listener_accept)].
+   ("listener.Accept iteration", true, st0, L_listener_accept);
+   ("listener.handleIncoming loop iteration", false, st0, L_listener_loop);
+   ("BasicHost.newStreamHandler", false, st_sstream, L_host_streamhandler)].
 
 Definition entry_ok (e : string * bool * st * list (list aev)) : bool :=
   let '(_, vr, init, ps) := e in forallb (path_ok vr init) ps.
